@@ -183,7 +183,7 @@ func invocation(c Cmd, ids *IDMap) (args []string, stdin []byte) {
 		for _, f := range [][2]string{{"title", "title"}, {"body", "body"}, {"state", "state"}, {"claim", "claim"},
 			{"rsum", "result_summary"}, {"rpath", "result_path"}} {
 			if c.has(f[0]) {
-				m[f[1]] = c.str(f[0])
+				m[f[1]] = expandToken(c.str(f[0]))
 			}
 		}
 		if c.has("epic") {
@@ -457,7 +457,15 @@ func (sp *Stepper) step(c Cmd, tag string) *Obs {
 		}
 		sort.Strings(forced)
 		if len(forced) > 0 {
-			env = append(env, "ERGO_VERIF_IDS="+strings.Join(forced, ","))
+			// pruned ids interleaved with fresh ones: a guarded draw skips the pruned id and
+			// takes the fresh one, so that later draws of the same command meet a pruned id too
+			var list []string
+			for round := 0; round < 4; round++ {
+				for k, g := range forced {
+					list = append(list, g, fmt.Sprintf("FRESH%c", "ABCDEFGHIJKLMNOPQRSTUVWXYZ234567"[(round*len(forced)+k+len(sp.hist))%32]))
+				}
+			}
+			env = append(env, "ERGO_VERIF_IDS="+strings.Join(list, ","))
 		}
 	}
 	res := sp.St.run(stdin, env, args...)
